@@ -104,7 +104,8 @@ Inductive shape :=
 | ShLit (t : nat)
 | ShFn (ins outs : list nat)
 | ShWrap (ins innerIns innerOuts outs : list nat)   (* ins: parameters after the inner func *)
-| ShFnPtr (ins outs : list nat).
+| ShFnPtr (ins outs : list nat)
+| ShNilFn (ins outs : list nat).        (* a typed nil func value *)
 
 Record pdesc := mkPdesc {
   d_pid : nat;
